@@ -28,7 +28,9 @@ class JsonSerializer:
         Get JSON representation of an object
         """
         jsonpickle.set_encoder_options('json', sort_keys=sort)
-        return jsonpickle.encode(self._data())
+        # make_refs=False: encode every value in full, never as a reference ({"py/id": n}) to an equal
+        # object seen earlier - the JSON must depend on the content only, not on object identity
+        return jsonpickle.encode(self._data(), make_refs=False)
 
     @classmethod
     def _parse(cls, data):
